@@ -107,27 +107,39 @@ def run_env(args):
 
 def pick_faults(base, rng, tier):
     """base: [(label, module, model dict, asn1c result, family)] of the single-module corpus whose plain run was clean
-    (asn1c = model = spec).  One module per fault family and verdict first, then round-robin up to the budget."""
-    want_bad = 30 if tier == "quick" else 220
+    (asn1c = model = spec).  Round-robin over the major fault families (collision, COMPONENTS OF, duplicate identifier,
+    enumeration name / value, dangling reference, big enumerations, hand-written witnesses ...), inside a major family
+    over its sub-families, so that a small budget still meets every kind of fault."""
+    want_bad = 32 if tier == "quick" else 240
     want_ok = 8 if tier == "quick" else 40
-    by = {}
-    for b in base:
-        lab, m, f, r, fam = b
-        key = (fam, f["model"].split(":")[0])
-        by.setdefault(key, []).append(b)
-    bad, ok = [], []
-    keys = sorted(by)
-    for k in keys:
-        by[k] = rng.shuffle(by[k])
-    rnd = 0
-    while (len(bad) < want_bad or len(ok) < want_ok) and any(len(by[k]) > rnd for k in keys):
-        for k in keys:
-            if len(by[k]) > rnd:
-                tgt, lim = (ok, want_ok) if k[1] == "ACCEPT" else (bad, want_bad)
-                if len(tgt) < lim:
-                    tgt.append(by[k][rnd])
-        rnd += 1
-    return bad + ok
+
+    def major(fam, lab):
+        if fam.startswith("fixed") or lab[:2] in ("w-", "x-", "t-", "q-", "c-", "e-"):
+            return "fixed"
+        return fam.split(":")[0]
+    picked = []
+    for accept, want in ((False, want_bad), (True, want_ok)):
+        tree = {}
+        for b in base:
+            lab, m, f, r, fam = b
+            if (f["model"].split(":")[0] == "ACCEPT") != accept:
+                continue
+            tree.setdefault(major(fam, lab), {}).setdefault(fam, []).append(b)
+        majors = sorted(tree)
+        for mj in majors:
+            for fam in tree[mj]:
+                tree[mj][fam] = rng.shuffle(tree[mj][fam])
+        got, rnd = [], 0
+        while len(got) < want and rnd < 400:
+            for mj in majors:
+                fams = sorted(f for f in tree[mj] if tree[mj][f])
+                if fams and len(got) < want:
+                    got.append(tree[mj][fams[rnd % len(fams)]].pop())
+            rnd += 1
+            if not any(tree[mj][f] for mj in majors for f in tree[mj]):
+                break
+        picked += got
+    return picked
 
 
 def status_line(werror, leaves, faulty):
